@@ -79,6 +79,8 @@ pub struct Built {
 
 /// Build a valid server for `engine` reporting `appid`.
 pub fn build(rng: &mut Rng, engine: &Engine, appid: u32, n_players: usize, n_rules: usize, allow_compressed: bool) -> Built {
+    // the bzip2 payloads come from a subprocess, which the Miri interpreter cannot spawn
+    let allow_compressed = allow_compressed && !cfg!(miri);
     let gold = matches!(engine, Engine::GoldSrc(_));
     let n_rules = if gold { n_rules.min(2000) } else { n_rules };
     let state = State::gen(rng, engine, appid, n_players, n_rules);
@@ -333,6 +335,12 @@ impl C02 {
 
 impl Check for C02 {
     fn id(&self) -> &'static str { "C02" }
+    fn miri_plan(&self, tier: Tier) -> Option<Vec<(u64, u64)>> {
+        if tier != Tier::Thorough {
+            return None;
+        }
+        Some((0 .. 16).map(|i| (i * 20, 20)).collect())
+    }
     fn rule(&self) -> String {
         "random A2S server states (boundary-biased numerics, string classes, all 32 EDF masks, 9 engine classes, both info layouts, The Ship fields) encoded by an independent server model as single / Source split / GoldSrc split / bzip2 split datagrams with 0-3 challenge rounds per section; valve::query and the repository's per-game modules must return the model's expected response field for field. non-trivial = the query returned Ok and equalled the expectation; distinct by (shape, state)".into()
     }
